@@ -21,6 +21,10 @@ RULE = (
     "compared with the model; every op runs under the FS monitor (P-contain). Non-trivial and distinct = "
     "distinct op sequences in which at least one job existed and at least one state-changing op succeeded."
 )
+RULE += (
+    " " + "Added later: None and '' as state point values; junk directory names that are an id plus a line feed / a space; shallow copies follow a move (the model used to release them)."
+    " In every third case DEBUG logging is effective for the package."
+)
 ASSUMPTIONS = [
     "Document ops through a handle whose job directory was removed/moved away by a handle outside its copy group "
     "are skipped here (their outcome depends on lazily cached per-handle state; C05 covers documents).",
